@@ -1,7 +1,7 @@
 """C05 - ListGrader: best consistent assignment, reported per input box."""
 import itertools
 
-from symx import Harness, pname, sand, sor, simplies, siff, near_le, near_eq, snot
+from symx import Harness, pname, sand, sor, simplies, siff, near_le, near_eq, snot, sif
 from symx.stubs import make_table_grader, shadow, NpObjProxy, wellformed
 
 PROPERTY = 'C05'
@@ -93,6 +93,30 @@ def h_multi(E, ordered, n, interior):
     perms = [tuple(range(n))] if ordered else list(itertools.permutations(range(n)))
     E.check('best-list-and-assignment', sand(*[near_le(sum(T[(X[p[j]], stus[j])] for j in range(n)), tot) for X in (A, B) for p in perms]))
     return [list(t) for t in tags]
+
+
+def h_multi_all_or_nothing(E, ordered, k):
+    """k alternative answer lists with partial_credit=False: entries are those of a best list/assignment when THAT one is perfect, all zero otherwise.
+    Credits are symbolic integers in {0, 1} (every pattern of right and wrong items)."""
+    from mitxgraders import ListGrader
+    import mitxgraders.listgrader as L
+    n = 2
+    fams = 'abc'[:k]
+    lists = [['%s%d' % (f, i) for i in range(n)] for f in fams]
+    stus = ['s%d' % j for j in range(n)]
+    T = {(e, s_): E.int('g_%s_%s' % (e, s_), 0, 1) for lst in lists for e in lst for s_ in stus}
+    TG = make_table_grader(T)
+    with shadow(L, np=NpObjProxy()):
+        g = ListGrader(answers=tuple(list(x) for x in lists), subgraders=TG(), ordered=ordered, partial_credit=False)
+        r = g(None, list(stus))
+    il = r['input_list']
+    perms = [tuple(range(n))] if ordered else list(itertools.permutations(range(n)))
+    totals = [sum(T[(X[p[j]], stus[j])] for j in range(n)) for X in lists for p in perms]
+    perfect_exists = sor(*[t == n for t in totals])
+    all_one = sand(*[sand(ent['grade_decimal'] == 1, ent['ok'] is True) for ent in il])
+    all_zero = sand(*[sand(ent['grade_decimal'] == 0, ent['ok'] is False) for ent in il])
+    E.check('all-or-nothing-over-alternative-lists', sand(len(il) == n, sor(sand(perfect_exists, all_one), sand(snot(perfect_exists), all_zero))))
+    return [str(ent['ok']) for ent in il]
 
 
 def h_multi3(E, tie_pattern):
@@ -234,6 +258,9 @@ def harnesses(tier):
     add(h_list, 'list', dict(ordered=True, partial=True, n=3, interior=False), 'n=3 ordered, credits in [0,1]')
     for ordered in (True, False):
         add(h_multi, 'multi', dict(ordered=ordered, n=2, interior=True), '2 answer lists, n=2, credits in (0,1)')
+    for ordered in (True, False):
+        for k in (2, 3):
+            add(h_multi_all_or_nothing, 'multi_all_or_nothing', dict(ordered=ordered, k=k), '2-3 answer lists, n=2, partial_credit=False, credits in {0,1}', max_paths=None if tier == 'thorough' else 3000)
     for tp in ('free', 'bc-identical'):
         add(h_multi3, 'multi3', dict(ties=tp), '3 answer lists, 2 inputs, credits in (0,1)')
     for layout in ('1122', '1212'):
